@@ -563,6 +563,8 @@ def run(ctx):
             break
         if len(t.samples) < 3 and nparas == 2:
             t.samples.append({"paragraphs": paras})
+    if not t.fail:
+        large_instances(real, t)
     t.done()
     ctx.level = "other"
     ctx.explanation = ("PROVED for all lines (SMT on the real pattern objects): every dumped 'Key: first' line matches _single and its "
@@ -577,6 +579,65 @@ def run(ctx):
                         "of them - the priority order of backtracking is not modelled and not needed",
                         "values contain no line-boundary characters other than '\\n' (same domain restriction as C08 states)",
                         "gpg signature verification is not exercised (armor is only stripped)"]
+
+
+def large_instances(real, t):
+    """sizes no small example reaches: paragraphs and documents beyond every read / write buffer (4 KiB, 8 KiB, 64 KiB), hundreds of
+    fields, values of hundreds of lines, single lines of tens of kilobytes - same statement as for the small ones"""
+    Deb822 = real.Deb822
+    paras = {
+        "400 short fields": [("F%03d" % i, "v%d" % i) for i in range(400)],
+        "a 20 kB line after three short fields": [("A", "1"), ("B", "2"), ("C", "3"), ("Big", "x" * 20000), ("Z", "9")],
+        "a 300-line value between short fields": [("A", "1"), ("Long", "first" + "".join("\n line %d %s" % (i, "y" * 40) for i in range(300))),
+                                                   ("Z", "9")],
+        "a 100 kB multi-line value": [("A", "1"), ("Huge", "h" + "".join("\n %s" % ("z" * 99) for i in range(1000))), ("Z", "9")],
+        "1200 fields": [("K%04d" % i, "value %d" % i) for i in range(1200)],
+    }
+    for what, fields in paras.items():
+        try:
+            o = Deb822()
+            for k, v in fields:
+                o[k] = v
+            text = o.dump()
+            fdb = io.BytesIO()
+            o.dump(fdb)
+            fdt = io.StringIO()
+            o.dump(fdt, text_mode=True)
+            if fdb.getvalue().decode("utf-8") != text or fdt.getvalue() != text or str(o) != text:
+                t.failed("large paragraph: dump(fd) / str() differ from dump()", paragraph=what, size=len(text),
+                         binary_dump_size=len(fdb.getvalue()), text_dump_size=len(fdt.getvalue()))
+                return
+            t.case(key=("large", what))
+            for fname, mk in forms(text):
+                got = list(Deb822(mk()).items())
+                got_iter = [list(q.items()) for q in Deb822.iter_paragraphs(mk(), use_apt_pkg=False)]
+                if got != fields or got_iter != [fields]:
+                    t.failed("large paragraph: re-parsed fields differ from the dumped paragraph", paragraph=what, size=len(text), form=fname,
+                             fields_expected=len(fields), fields_got=len(got), paragraphs_from_iter_paragraphs=len(got_iter))
+                    return
+        except Exception as e:
+            t.failed("large paragraph raised %r" % (e,), paragraph=what)
+            return
+    # a document of 900 paragraphs (about 100 kB), in every input form
+    docs = [[("Package", "p%d" % i), ("Version", "1.%d-1" % i), ("Description", "short\n long line %d %s" % (i, "d" * 60))] for i in range(900)]
+    try:
+        text = "\n".join(_dump(Deb822, f) for f in docs)
+        for fname, mk in forms(text):
+            got = [list(q.items()) for q in Deb822.iter_paragraphs(mk(), use_apt_pkg=False)]
+            t.case(key=("large document", fname))
+            if got != docs:
+                t.failed("large document: iter_paragraphs gives other paragraphs than were dumped", size=len(text), form=fname,
+                         paragraphs_expected=len(docs), paragraphs_got=len(got))
+                return
+    except Exception as e:
+        t.failed("large document raised %r" % (e,))
+
+
+def _dump(cls, fields):
+    o = cls()
+    for k, v in fields:
+        o[k] = v
+    return o.dump()
 
 
 def replay(ctx, data):
